@@ -54,12 +54,10 @@ Print Assumptions c04_retains_refuted.
    int-typed texts are plain digits; no Length-typed field other than BodyLength; 8 / 9 / 35 / 10 do
    not occur again) and provided every tag is legal AT ITS POSITION (struct_verdict <> VIllegal):
    the model of Message::factory accepts ser toks if and only if ser toks conforms, it never ends in
-   a memory error or a hang, and it rejects by throwing.
-   The remaining hypothesis "<> Fuel" says that the model's recursion fuel was not exhausted (a model
-   artefact; c04_fuel_enough below discharges it). *)
+   a memory error or a hang, it rejects by throwing, and the model's recursion fuel (two units per
+   input byte) is never exhausted. *)
 Theorem c04_exact_partial : forall c toks,
   wf_ctx c = true -> exact_hyps c toks = true -> struct_verdict c toks <> VIllegal ->
-  strict_factory c (ser toks) <> Fuel ->
   match strict_factory c (ser toks) with
   | Ok m => conforms c (ser toks) = true
   | Exc _ => conforms c (ser toks) = false
